@@ -64,7 +64,8 @@ theorem lca_nil_eq_three_way (b o t : α) (a : Bool) :
   · simp [hot]
 
 /-- A side whose value is one of the ancestors' values (it did not change)
-never wins against a side whose value is new. -/
+never wins against a side whose value is new (for `_lca_multi_way`: with either
+value of `allow_overriding_lca`). -/
 theorem three_way_unchanged_never_wins (b o t : α) (ht : t = b) (ho : o ≠ b) :
     threeWay b o t = .other := by
   unfold threeWay; grind
@@ -73,33 +74,55 @@ theorem three_way_unchanged_never_wins' (b o t : α) (ho : o = b) (_ht : t ≠ b
     threeWay b o t = .this := by
   unfold threeWay; grind
 
-theorem lca_unchanged_never_wins (b : α) (ls : List α) (o t : α)
+/-- flag monotonicity: without `allow_overriding_lca` the verdict is either a
+conflict or exactly the verdict with the flag — switching the flag off never
+turns one winner into the other, it only withholds verdicts. -/
+theorem lca_allow_false_conflict_or_eq (b : α) (ls : List α) (o t : α) :
+    lcaMultiWay b ls o t false = .conflict ∨
+      lcaMultiWay b ls o t false = lcaMultiWay b ls o t true := by
+  unfold lcaMultiWay
+  split
+  · exact Or.inr rfl
+  · split
+    · exact Or.inr rfl
+    · split
+      · exact Or.inr rfl
+      · exact Or.inl (by simp)
+
+theorem lca_unchanged_never_wins (b : α) (ls : List α) (o t : α) (a : Bool)
     (ht : t ∈ b :: ls) (ho : o ∉ b :: ls) :
-    lcaMultiWay b ls o t true ≠ .this := by
+    lcaMultiWay b ls o t a ≠ .this := by
   have hot : o ≠ t := fun e => ho (e ▸ ht)
   have hob : o ≠ b := fun e => ho (by simp [e])
-  unfold lcaMultiWay
-  simp only [hot, if_false]
-  have hsub : ∀ x ∈ ls.filter (fun v => decide (v ≠ b)), x ∈ ls := fun x hx => (List.mem_filter.mp hx).1
-  split
-  · rename_i hnil
-    unfold threeWay; grind
-  · rename_i v rest hf
-    have hvmem : v ∈ ls := hsub v (by rw [hf]; simp)
-    have hov : o ≠ v := fun e => ho (by simp [e, hvmem])
-    have honot : o ∉ v :: rest := fun hm => ho (by
-      have := hsub o (by rw [hf]; exact hm); simp [this])
+  have htrue : lcaMultiWay b ls o t true ≠ .this := by
+    unfold lcaMultiWay
+    simp only [hot, if_false]
+    have hsub : ∀ x ∈ ls.filter (fun v => decide (v ≠ b)), x ∈ ls := fun x hx => (List.mem_filter.mp hx).1
     split
-    · unfold threeWay; grind
-    · simp only [if_true, honot]
-      split <;> simp
+    · rename_i hnil
+      unfold threeWay; grind
+    · rename_i v rest hf
+      have hvmem : v ∈ ls := hsub v (by rw [hf]; simp)
+      have hov : o ≠ v := fun e => ho (by simp [e, hvmem])
+      have honot : o ∉ v :: rest := fun hm => ho (by
+        have := hsub o (by rw [hf]; exact hm); simp [this])
+      split
+      · unfold threeWay; grind
+      · simp only [if_true]
+        split <;> simp
+  cases a with
+  | true => exact htrue
+  | false =>
+    rcases lca_allow_false_conflict_or_eq b ls o t with h | h
+    · rw [h]; simp
+    · rw [h]; exact htrue
 
-theorem lca_unchanged_never_wins' (b : α) (ls : List α) (o t : α)
+theorem lca_unchanged_never_wins' (b : α) (ls : List α) (o t : α) (a : Bool)
     (ho : o ∈ b :: ls) (ht : t ∉ b :: ls) :
-    lcaMultiWay b ls o t true ≠ .other := by
+    lcaMultiWay b ls o t a ≠ .other := by
   have hot : o ≠ t := fun e => ht (e ▸ ho)
-  have := lca_unchanged_never_wins b ls t o ho ht
-  rw [lca_swap b ls o t true hot] at this
+  have := lca_unchanged_never_wins b ls t o a ho ht
+  rw [lca_swap b ls o t a hot] at this
   intro h; rw [h] at this; exact this rfl
 
 /-- the decision as a function of the filtered LCA values only: it looks at
@@ -202,8 +225,59 @@ theorem lca_two_lca_values_conflict (b : α) (ls : List α) (o t : α)
     exact hot ((hall o hof).trans (hall t htf).symm)
   rw [if_neg hn, if_neg hne, if_pos rfl, if_pos hof, if_pos htf]
 
+/-- what the flag withholds, exactly (1): where the non-base LCA values all
+agree the flag is irrelevant … -/
+theorem lca_allow_false_agree (b : α) (ls : List α) (o t v : α)
+    (h : ∀ w ∈ ls.filter (fun x => x ≠ b), w = v) :
+    lcaMultiWay b ls o t false = lcaMultiWay b ls o t true := by
+  by_cases hot : o = t
+  · subst hot; rw [lca_tie, lca_tie]
+  · rw [lca_eq_lcaOn b ls o t false hot, lca_eq_lcaOn b ls o t true hot]
+    generalize ls.filter (fun x => decide (x ≠ b)) = f at h
+    unfold lcaOn
+    by_cases hn : f = []
+    · rw [if_pos hn, if_pos hn]
+    · rw [if_neg hn, if_neg hn]
+      have hex : ∃ v, v ∈ f ∧ ∀ w ∈ f, w = v := by
+        cases f with
+        | nil => exact absurd rfl hn
+        | cons x xs => exact ⟨x, List.mem_cons_self, fun w hw => (h w hw).trans (h x List.mem_cons_self).symm⟩
+      rw [if_pos hex, if_pos hex]
+
+/-- … (2): where two different non-base LCA values exist and the sides differ,
+the verdict without the flag is a conflict whatever THIS and OTHER are. -/
+theorem lca_allow_false_disagree (b : α) (ls : List α) (o t x y : α) (hot : o ≠ t)
+    (hx : x ∈ ls) (hy : y ∈ ls) (hxb : x ≠ b) (hyb : y ≠ b) (hxy : x ≠ y) :
+    lcaMultiWay b ls o t false = .conflict := by
+  rw [lca_eq_lcaOn b ls o t false hot]
+  have hxf : x ∈ ls.filter (fun v => decide (v ≠ b)) := List.mem_filter.mpr ⟨hx, decide_eq_true hxb⟩
+  have hyf : y ∈ ls.filter (fun v => decide (v ≠ b)) := List.mem_filter.mpr ⟨hy, decide_eq_true hyb⟩
+  generalize ls.filter (fun v => decide (v ≠ b)) = f at hxf hyf
+  unfold lcaOn
+  have hn : ¬ f = [] := fun h => by subst h; cases hxf
+  have hne : ¬ ∃ v, v ∈ f ∧ ∀ w ∈ f, w = v := by
+    rintro ⟨v, _, hall⟩
+    exact hxy ((hall x hxf).trans (hall y hyf).symm)
+  rw [if_neg hn, if_neg hne]
+  simp
+
+/-- LCA values equal to the base value are "not interesting": dropping them from
+the LCA list never changes the verdict (so an LCA list consisting of base values
+only behaves like no LCA at all: `lca_nil_eq_three_way`). -/
+theorem lca_base_values_irrelevant (b : α) (ls : List α) (o t : α) (a : Bool) :
+    lcaMultiWay b (ls.filter (fun v => v ≠ b)) o t a = lcaMultiWay b ls o t a := by
+  unfold lcaMultiWay
+  rw [List.filter_filter]
+  simp only [Bool.and_self]
+
 /-- non-vacuity: concrete instances of the hypotheses -/
 example : lcaMultiWay 0 [1, 2] 1 3 true = .this ∧ (1 : Nat) ∈ [0, 1, 2] ∧ (3 : Nat) ∉ [0, 1, 2] := by decide
 example : lcaMultiWay 0 [1, 1] 1 3 false = threeWay 1 1 3 := by decide
+/-- the flag matters (so `lca_allow_false_conflict_or_eq` is not `rfl`), and
+`lca_unchanged_never_wins` has instances for both flag values -/
+example : lcaMultiWay 0 [1, 2] 1 3 false = .conflict ∧ lcaMultiWay 0 [1, 2] 1 3 true = .this := by decide
+example : lcaMultiWay 0 [1, 2] 3 1 false = .conflict ∧ lcaMultiWay 0 [1, 2] 3 1 true = .other
+    ∧ (1 : Nat) ∈ [0, 1, 2] ∧ (3 : Nat) ∉ [0, 1, 2] := by decide
+example : (∀ w ∈ [0, 1, 1].filter (fun x => x ≠ 0), w = 1) ∧ lcaMultiWay 0 [0, 1, 1] 1 3 false = .this := by decide
 
 end BreezyVerif.C18
